@@ -165,7 +165,7 @@ PROPS = {
     "C15": {"verus": ["vsim"], "kani": ["k_sim_no_normal"], "title": "Simulator packet conservation (per-event rules)",
             "explanation": "PARTIAL, function level. V-SIM verifies the real body of sim_network_stack (std::time, the event queue - modelled as the sequences of pushed and popped events with an uninterpreted head - and the network model replaced by stand-ins): a NormalSent event becomes exactly one tunnel-sent normal packet of that side [C15.sent]; every tunnel-sent packet causes exactly one tunnel-received packet of the same kind (normal / padding) on the OTHER side, a normal one never in the past [C15.deliver]; a tunnel-received packet is handed up as exactly one NormalRecv / PaddingRecv of the same kind and side [C15.recv]; padding adds one tunnel-sent padding packet unless it replaces a queued normal packet of its side, in which case NO packet is added - nothing is pushed, or the queued packet is popped and pushed back re-labelled with the bypass flag [C15.replace]; no other event adds, removes or duplicates a packet [C15.other]. K-SIM (real code, BOUNDED to one queued event): the stop condition no_normal_packets() answers true only when no normal packet - base-trace NormalSent, tunnel-sent (blocked or bypassing) or tunnel-received - is still queued [C15.stop]. V-SIM, postcondition of the real body of pick_next (partial correctness; queue, peek_queue and network model arbitrary): the event picked next is never earlier than the current time - simulated time only moves forward, the main loop's `BUG: next event moves time backwards` cannot fire [C15.forward]. NOT decided: that these steps compose to conservation and causality over a whole run (event loop, queue implementation, aggregate delays), the equality of counts with the input trace, and the final ordering (std sort)."},
     "C16": {"verus": ["vsim"], "kani": ["k_sim_block_fires", "k_sim_peek_blocked", "k_sim_queue_blocked"], "title": "Simulator blocking (per-action rules)",
-            "explanation": "PARTIAL, function level. V-SIM verifies the real body of do_scheduled_action for any number of machines (std::time and the delay samplers as stand-ins): exactly the first due action (client before server, lowest machine first) is executed and removed, everything else stays, and for a BlockOutgoing action the reported BlockingBegin, the expiry rule and the bypass rule below hold [C16.begin][C16.expiry][C16.bypass]; the `BUG` assertion and panics of that function are unreachable given that only padding / blocking actions are ever pending, which trigger_update maintains [C17.kinds]. K-SIM (bit-precise, BOUNDED to two timer slots per side) runs the real do_scheduled_action on real SimState pairs with std::time arithmetic bit-precise: a BlockOutgoing action that fires is reported as BlockingBegin for its machine and side at the fire time (plus the integration's delays, stubbed as arbitrary) [C16.begin]; the side's blocking then lasts until fire time + duration if the action says replace or that is later than the running expiry, otherwise the running expiry stays [C16.expiry]; the blocking's bypass property becomes the action's flag exactly when this action set the expiry, and the event carries it [C16.bypass]; the other side is untouched [C16.side]; a sibling machine's blocking action due at the very same instant is neither lost nor executed in its place - it stays pending for the next step [C16.begin]; peek_blocked_exp returns the earlier of the two sides' expiries with its side [C16.due]; with one TunnelSent packet waiting on a side, peek_queue does not let it leave before that side's blocking expires unless the blocking is bypassable and the packet carries the bypass flag, whatever the other side's blocking is [C16.hold]. V-SIM also verifies the real bodies of peek_blocked_exp (the earlier of the two sides' expiries with its side, an expiry in the past counting as now [C16.due]) and of pick_next (partial correctness: the recursion is not shown to terminate; peek_queue, the queue and the network model are stand-ins): when the blocking expiry is picked, nothing else that is ahead is earlier, a side's blocking had an expiry, ONE BlockingEnd is built for that side at the expiry (the current time if it has passed) plus the reporting delay, and that side's blocking is switched off while the other side's stays - so the end is reported once [C16.end]; `None` is returned only when nothing is ahead. NOT decided: the rule 'nothing leaves a blocked side' with several queued packets / replaced padding (peek_queue and the real queues; whole-run behaviour of the event loop), termination of pick_next."},
+            "explanation": "PARTIAL, function level. V-SIM verifies the real body of do_scheduled_action for any number of machines (std::time and the delay samplers as stand-ins): exactly the first due action (client before server, lowest machine first) is executed and removed, everything else stays, and for a BlockOutgoing action the reported BlockingBegin, the expiry rule and the bypass rule below hold [C16.begin][C16.expiry][C16.bypass]; the `BUG` assertion and panics of that function are unreachable given that only padding / blocking actions are ever pending, which trigger_update maintains [C17.kinds]. K-SIM (bit-precise, BOUNDED to two timer slots per side) runs the real do_scheduled_action on real SimState pairs with std::time arithmetic bit-precise: a BlockOutgoing action that fires is reported as BlockingBegin for its machine and side at the fire time (plus the integration's delays, stubbed as arbitrary) [C16.begin]; the side's blocking then lasts until fire time + duration if the action says replace or that is later than the running expiry, otherwise the running expiry stays [C16.expiry]; the blocking's bypass property becomes the action's flag exactly when this action set the expiry, and the event carries it [C16.bypass]; the other side is untouched [C16.side]; a sibling machine's blocking action due at the very same instant is neither lost nor executed in its place - it stays pending for the next step [C16.begin]; peek_blocked_exp returns the earlier of the two sides' expiries with its side [C16.due]; with one TunnelSent packet waiting on a side, peek_queue does not let it leave before that side's blocking expires unless the blocking is bypassable and the packet carries the bypass flag, whatever the other side's blocking is [C16.hold]. V-SIM also verifies the real bodies of peek_blocked_exp (the earlier of the two sides' expiries with its side, an expiry in the past counting as now [C16.due]) and of pick_next (partial correctness: the recursion is not shown to terminate; peek_queue, the queue and the network model are stand-ins): when the blocking expiry is picked, nothing else that is ahead is earlier, a side's blocking had an expiry, ONE BlockingEnd is built for that side at the expiry (the current time if it has passed) plus the reporting delay, and that side's blocking is switched off while the other side's stays - so the end is reported once [C16.end]; `None` is returned only when nothing is ahead. When a queued event is picked it never happens before the time the queue look-ahead computed for it - a held packet is moved forward to that time [C16.hold]. NOT decided: the rule 'nothing leaves a blocked side' with several queued packets / replaced padding (peek_queue and the real queues; whole-run behaviour of the event loop), termination of pick_next."},
     "C17": {"verus": ["vsim"], "kani": ["k_sim_padding_fires", "k_sim_block_fires", "k_sim_peek_action_2", "k_sim_peek_action"], "title": "Simulator action timers (per-function rules)",
             "explanation": "PARTIAL, function level. V-SIM verifies the real body of trigger_update (any number of machines; std::time, the event queue and the framework replaced by stand-ins, the framework's returned actions being any sequence naming distinct existing machines, which is what V-FW proves [C04.slot]): a returned SendPadding / BlockOutgoing action becomes that machine's pending action, due at the current time + its timeout (+ the integration's trigger delay), replacing whatever was pending [C17.schedule][C17.supersede]; Cancel of the action timer (or of all) clears it, Cancel of the internal timer and UpdateTimer leave it [C17.cancel]; machines without a returned action keep theirs [C17.frame]. V-SIM also verifies do_scheduled_action for any number of machines: exactly the first due action is executed and removed [C17.fire][C17.once]. K-SIM (real code, bit-precise, BOUNDED to two slots per side): a due SendPadding action is executed as PaddingSent for its machine and side exactly at its scheduled time with its flags, and removed - it happens once - while other pending actions stay [C17.fire][C17.once]; peek_scheduled_action returns the time to the earliest pending action not in the past [C17.due] (also verified by V-SIM for any number of slots, with time as integers). V-SIM verifies the real body of pick_next (partial correctness; peek_queue, queue and network model as stand-ins): the pending action that is executed is due exactly at current time + the look-ahead value, nothing else that is ahead (timer, blocking expiry, aggregate delay, queued event) is earlier, and such an action exists - so do_scheduled_action's precondition holds at its call site and its `BUG` assertion / panics cannot fire [C17.next]; pick_next never creates or alters a pending action: every slot keeps what it held or has been executed [C17.keep], and only padding / blocking actions stay pending [C17.kinds]. The trigger delay is named by a spec function of the side's integration field (the real sampler is random: what is stated is 'the integration's trigger delay'). NOT decided: termination of pick_next's recursion and the composition over a whole run (main loop of sim_advanced)."},
     "C18": {"verus": ["vsim"], "kani": ["k_sim_timer_ends", "k_sim_peek_timer_2", "k_sim_peek_timer"], "title": "Simulator internal timers (per-function rules)",
